@@ -52,6 +52,9 @@ type connection struct {
 	idleTime    time.Time
 	invokeNum   int32
 	dialTimeout time.Duration
+
+	lastDialErr error
+	lastDialEnd time.Time
 }
 
 // NewTarsClient new tars client and init it .
@@ -123,9 +126,15 @@ func (tc *TarsClient) GraceClose(ctx context.Context) {
 }
 
 func (c *connection) ReConnect() (err error) {
+	begin := time.Now()
 	c.connLock.Lock()
 	defer c.connLock.Unlock()
 	if c.isClosed {
+		if c.lastDialErr != nil && c.lastDialEnd.After(begin) {
+			// A dial that was in progress while this caller waited for the lock has failed:
+			// share its result instead of queueing one dial timeout per waiting caller.
+			return c.lastDialErr
+		}
 		TLOG.Debug("Connect:", c.client.address, "Proto:", c.client.config.Proto)
 		if c.client.config.Proto == "ssl" {
 			dialer := &net.Dialer{Timeout: c.dialTimeout}
@@ -135,8 +144,10 @@ func (c *connection) ReConnect() (err error) {
 		}
 
 		if err != nil {
+			c.lastDialErr, c.lastDialEnd = err, time.Now()
 			return err
 		}
+		c.lastDialErr = nil
 		if c.client.config.Proto == "tcp" {
 			if c.conn != nil {
 				_ = c.conn.(*net.TCPConn).SetKeepAlive(true)
